@@ -74,6 +74,8 @@ CONSTS = [
     # C13
     ("REQUEST_TIMEOUT_SECS", "src/protocol/request_response/mod.rs",
      r"const\s+REQUEST_TIMEOUT\s*:\s*Duration\s*=\s*Duration::from_secs\(([^)]+)\)"),
+    # C12
+    ("BACKPRESSURE_BOUNDARY", "src/substream/mod.rs", const("BACKPRESSURE_BOUNDARY")),
 ]
 
 
